@@ -332,6 +332,8 @@ func checkC09(p *Program, r *Report) {
 		checkNeighbourCandidates(p, r, descent, first.f, last.f)
 	}
 	checkCodecsAs(p, r, "C09")
+	r.Explanation += " (capacity) presence bitmaps of the value array cover every leaf ordinal (rule shared with C01)."
+	checkCapacity(p, r, "C09.capacity")
 }
 
 // checkNeighbourCandidates: see C09.candidates.
